@@ -401,6 +401,14 @@ pub fn run(ctx: &Ctx) -> Result<Ev, String> {
                     }
                     let (line, _) = render_line(&c, 0x21);
                     variants.push(("after-data-excursion-and-org", format!("{}.dseg\n.byte 1\n.cseg\n.org 0x21\n{}\n", dev_line, line), 0x21, vec![0; 0x42]));
+                    // directly behind data in flash: an odd .db (padded), a .dd, a .dq, a string
+                    for (k, (data, bytes)) in [(".db 1, 2, 3", vec![1u8, 2, 3, 0]), (".dd 0x12345678", vec![0x78, 0x56, 0x34, 0x12]), (".dq 1", vec![1, 0, 0, 0, 0, 0, 0, 0]), (".db \"ab\"\n.dw 7", vec![b'a', b'b', 7, 0])].into_iter().enumerate() {
+                        if (n + k) % 2 == 0 {
+                            let at = (bytes.len() / 2) as i64;
+                            let (line, _) = render_line(&c, at);
+                            variants.push(("directly-behind-data-in-flash", format!("{}{}\n{}\n", dev_line, data, line), at, bytes));
+                        }
+                    }
                     let (line, _) = render_line(&c, 3);
                     variants.push(("second-code-segment-continued", format!("{}nop\n.dseg\n.cseg\nnop\n.eseg\n.cseg\nnop\n{}\n", dev_line, line), 3, vec![0; 6]));
                 }
@@ -430,7 +438,7 @@ pub fn run(ctx: &Ctx) -> Result<Ev, String> {
                 }
                 // full-featured devices (forms the device lacks are C13's business)
                 if s.device.is_none() {
-                    let dname = ["ATmega2560", "ATmega128", "ATmega328P", "ATmega8", "ATtiny2313"][n % 5];
+                    let dname = ["ATmega2560", "ATmega128", "ATmega328P", "ATmega8", "ATtiny2313", "ATtiny13", "ATtiny25", "ATmega48", "AT90S2313", "ATmega16"][(n + c.m.len()) % 10];
                     if let Some(d) = devs.iter().find(|d| d.name == dname) {
                         let (line, ops) = render_line(&c, 0);
                         if !isa::gate(&d.flags, &c.m, &ops) {
